@@ -12,9 +12,20 @@ LEVEL_TEXT = ("Theorems about the history-buffer functions regenerated from hist
               "circular binary search returns the least logical index with t <= time (terminates within log fuel); insert refines a sorted-association-list spec in all four cases and preserves "
               "the invariant (strictly increasing logical times) through any number of insertions incl. wrap-around; read refines the spec for ZOH/linear/cubic; end-to-end: from MuJoCo's "
               "initial buffer, after k steps the ZOH read at k*dt - m*dt returns c_(k-m) (0 before) for any k, n, 1<=m<=n, also through the two ctrl kernels. "
-              "make_data now starts from MuJoCo's initial buffer (fix: commit); reset_data still does not restore it (known finding). Real step() is compared with mujoco.mj_step on delayed models.")
-LEVEL_NOTE = "C30_partial: vector (dim>1) buffers and sensor interval logic (period not a multiple of the timestep, negative phase) are sampled only; dt must exceed the 1e-6 merge window. Trusted: Lean kernel + Mathlib, translator (func/kernel differentials)."
-ASSUMPTIONS = ["times on a grid coarser than 2e-6 (k*timestep)", "oracle: mujoco.mj_step with the same controls, comparing ctrl-driven qvel/qpos and delayed sensordata"]
+              "make_data now starts from MuJoCo's initial buffer (fix: commit); reset_data still does not restore it (known finding). Real step() is compared with mujoco.mj_step on delayed models. "
+              "Sensor zoo (oracle): one scene with 42 sensor kinds of every stage -- position (jointpos, tendonpos, actuatorpos, ballquat, jointlimitpos, tendonlimitpos, frame*, subtreecom, rangefinder, clock, "
+              "magnetometer, e_potential, distance/normal/fromto, insidesite), velocity (velocimeter, gyro, joint/tendon/actuator vel, ballangvel, jointlimitvel, tendonlimitvel, frame lin/ang vel, subtree "
+              "linvel/angmom) and acceleration (touch, contact, accelerometer, force, torque, actuatorfrc, tendonactuatorfrc, jointactuatorfrc, jointlimitfrc, tendonlimitfrc, frame lin/ang acc), i.e. every "
+              "sensor index list and dedicated kernel of sensor.py -- each kind plain, delayed (n 1..4, delay k or k-1/2 steps, zoh/linear/cubic) and with an interval / delay+interval / record-only "
+              "buffer; active joint limit, tendon limit and contact; dims 1..6; nworld 1 and 2; Data from put_data (fresh and mid-episode), make_data and after reset_data; after every step "
+              "sensordata, read_sensor (per-world query times, interpolation override) and read_ctrl are compared with MuJoCo C (mj_step, mj_readSensor, mj_readCtrl). After reset_data Warp is additionally "
+              "required to behave exactly like MuJoCo whose buffers were left stale (the precise signature of the recorded finding). A fixed regression case for repair 11fa011 (delayed limit-force sensors) runs first.")
+LEVEL_NOTE = ("C30_partial: vector (dim>1) buffers and sensor interval logic (period not a multiple of the timestep, negative phase) are sampled only; dt must exceed the 1e-6 merge window. "
+              "WHICH sensors reach the delay logic is decided by index lists built in put_model (host NumPy code, not in Gen) and by the call sequence of sensor_pos/vel/acc: covered by the sensor-zoo oracle only "
+              "(every kind is delayed in every case), not by a theorem. A delayed reading is judged only while the undelayed reading of the same quantity agrees with MuJoCo (counted as "
+              "zoo:value-differs-not-judged otherwise); zoo:*-NOT-visible hits list readings whose delay had no visible effect in a case. Trusted: Lean kernel + Mathlib, translator (func/kernel differentials).")
+ASSUMPTIONS = ["times on a grid coarser than 2e-6 (k*timestep)", "oracle: mujoco.mj_step with the same controls, comparing ctrl-driven qvel/qpos and delayed sensordata",
+               "zoo oracle: tolerance 2e-4 + 1e-3 * (running max magnitude of the undelayed MuJoCo reading of that kind); read_sensor/read_ctrl query times keep >= 0.1 timestep away from sample times"]
 
 XML = """
 <mujoco>
@@ -110,17 +121,341 @@ def _run(ctx, ncases, rec):
   return acc, kc
 
 
+# ---------------------------------------------------------------------------------------------------------------------------------
+# Sensor zoo: delays AND intervals on sensors of every stage and kind (incl. the acceleration-stage sensors that have their own
+# kernels and index lists), multi-dimensional sensors, nworld 1 and 2, every way of obtaining a Data -- all in lock step with MuJoCo C.
+# Every kind appears (a) plain ("twin", no history), (b) delayed, (c) with an interval / delay+interval / record-only buffer.
+# The plain twin isolates the delay stage: a delayed reading is only judged while the undelayed reading of the same quantity has
+# agreed with MuJoCo at every step so far (value-level disagreements are other properties' business and are counted, not alarmed).
+ZOO = """
+<mujoco>
+  <compiler angle="radian"/>
+  <option timestep="{dt}"/>
+  <worldbody>
+    <geom name="floor" type="plane" size="5 5 .1"/>
+    <site name="s0" pos="-1 1 1"/>
+    <site name="zone" type="box" pos="0.7 0 0.75" size="0.2 0.2 0.22"/>
+    <body name="arm" pos="0 0 1">
+      <joint name="h" type="hinge" axis="0 1 0" limited="true" range="0.15 1.2" margin="0.4" damping="0.2"/>
+      <geom name="armg" type="capsule" fromto="0 0 0 0.4 0 0" size="0.04" mass="1" contype="0" conaffinity="0"/>
+      <site name="imu" pos="0.4 0 0"/>
+      <site name="rf" pos="0.2 0.3 0" zaxis="0.3 0 -1"/>
+      <body name="fore" pos="0.4 0 0">
+        <joint name="b" type="ball" damping="0.1"/>
+        <geom name="foreg" type="capsule" fromto="0 0 0 0.3 0 0" size="0.03" mass="0.5" contype="0" conaffinity="0"/>
+        <site name="tip" pos="0.3 0 0"/>
+      </body>
+    </body>
+    <body name="slider" pos="0 1 1">
+      <joint name="s" type="slide" axis="1 0 0" damping="1"/>
+      <geom name="slg" size="0.1" mass="1" contype="0" conaffinity="0"/>
+      <site name="s1" pos="0.1 0 0"/>
+    </body>
+    <body name="ball" pos="2 0 0.095">
+      <freejoint name="f"/>
+      <geom name="ballgeom" size="0.1" mass="1"/>
+      <site name="pad" size="0.12"/>
+    </body>
+  </worldbody>
+  <tendon>
+    <spatial name="ten" limited="true" range="1.15 3" margin="0.4"><site site="s0"/><site site="s1"/></spatial>
+  </tendon>
+  <actuator>
+    <motor name="mh" joint="h" gear="0.5"/>
+    <motor name="mt" tendon="ten" gear="2"/>
+    <position name="ps" joint="s" kp="3"/>
+    <motor name="md" joint="s" gear="0.3" delay="{ad}" nsample="{an}" interp="{ai}"/>
+  </actuator>
+  <sensor>
+{sensors}
+  </sensor>
+</mujoco>
+"""
+
+# (kind, attributes); the joint limit (hinge starts 0.15 rad beyond its range), the tendon limit (0.05 beyond) and the ball/floor
+# contact (5 mm penetration) are ACTIVE from step 0 with time-varying forces, so limit/touch sensors carry a signal
+ZOO_KINDS = [
+  # position stage (sensor_pos_adr, sensor_limitpos_adr, sensor_rangefinder_adr, collision sensors)
+  ("jointpos", 'joint="h"'), ("tendonpos", 'tendon="ten"'), ("actuatorpos", 'actuator="ps"'), ("ballquat", 'joint="b"'),
+  ("jointlimitpos", 'joint="h"'), ("tendonlimitpos", 'tendon="ten"'), ("framepos", 'objtype="site" objname="tip"'),
+  ("framexaxis", 'objtype="site" objname="tip"'), ("framequat", 'objtype="body" objname="fore"'), ("subtreecom", 'body="arm"'),
+  ("rangefinder", 'site="rf"'), ("clock", ''), ("magnetometer", 'site="tip"'), ("e_potential", ''),
+  ("distance", 'geom1="ballgeom" geom2="foreg" cutoff="10"'), ("fromto", 'geom1="ballgeom" geom2="slg" cutoff="10"'),
+  ("normal", 'geom1="armg" geom2="slg" cutoff="10"'), ("insidesite", 'site="zone" objtype="site" objname="tip"'),
+  # velocity stage (sensor_vel_adr, sensor_limitvel_adr, subtree velocities)
+  ("velocimeter", 'site="imu"'), ("gyro", 'site="tip"'), ("jointvel", 'joint="s"'), ("tendonvel", 'tendon="ten"'),
+  ("actuatorvel", 'actuator="ps"'), ("ballangvel", 'joint="b"'), ("jointlimitvel", 'joint="h"'), ("tendonlimitvel", 'tendon="ten"'),
+  ("framelinvel", 'objtype="site" objname="tip"'), ("frameangvel", 'objtype="body" objname="fore"'), ("subtreelinvel", 'body="arm"'),
+  ("subtreeangmom", 'body="arm"'),
+  # acceleration stage (sensor_acc_adr, sensor_touch_adr, sensor_tendonactfrc_adr, sensor_limitfrc_adr, rne_postconstraint)
+  ("touch", 'site="pad"'), ("accelerometer", 'site="imu"'), ("force", 'site="imu"'), ("torque", 'site="imu"'),
+  ("actuatorfrc", 'actuator="mt"'), ("tendonactuatorfrc", 'tendon="ten"'), ("jointactuatorfrc", 'joint="h"'),
+  ("jointlimitfrc", 'joint="h"'), ("tendonlimitfrc", 'tendon="ten"'), ("framelinacc", 'objtype="site" objname="tip"'),
+  ("frameangacc", 'objtype="body" objname="fore"'), ("contact", 'geom1="ballgeom" data="found force dist" num="1"'),
+]
+ZOO_STARTS = ["put_data", "make_data", "reset_data", "put_data_mid"]
+# query-time offsets (in steps) for read_sensor / read_ctrl: never on a sample time for delays of k or k - 1/2 steps
+ZOO_QOFF = [0.0, 0.4, 1.3, 2.6]
+
+
+def _zoo_sensors(rng, dt, rot):
+  """sensor block of the zoo: per kind a twin, a delayed variant and (rotating with `rot`) interval / delay+interval / record-only"""
+  lines, meta = [], []
+  for ki, (kind, attr) in enumerate(ZOO_KINDS):
+    lines.append(f'    <{kind} {attr}/>')
+    meta.append((kind, "twin", ""))
+    n = int(rng.integers(1, 5))
+    mstep = int(rng.integers(1, n + 1))
+    half = rng.random() < 0.3
+    steps = mstep - 0.5 if half else mstep
+    interp = str(rng.choice(["zoh", "linear", "cubic"]))
+    lines.append(f'    <{kind} {attr} delay="{steps * dt:.9g}" nsample="{n}" interp="{interp}"/>')
+    meta.append((kind, "delay", f"n={n} delay={steps}dt {interp}"))
+    # intervals: period k + 0.37 steps, phase 0 or negative (see the comment in scenario())
+    kper = int(rng.integers(1, 4)) + 0.37
+    ph = float(rng.choice([0.0, -0.45])) * dt
+    n2 = int(rng.integers(1, 5))
+    v = (ki + rot) % 3
+    if v == 0:
+      lines.append(f'    <{kind} {attr} interval="{kper * dt:.9g} {ph:.9g}" nsample="{n2}"/>')
+      meta.append((kind, "interval", f"n={n2} period={kper}dt phase={ph / dt}dt"))
+    elif v == 1:
+      lines.append(f'    <{kind} {attr} delay="{2 * dt:.9g}" interval="{kper * dt:.9g} {ph:.9g}" nsample="{n2 + 2}" interp="linear"/>')
+      meta.append((kind, "delay+interval", f"n={n2 + 2} delay=2dt period={kper}dt phase={ph / dt}dt linear"))
+    else:
+      lines.append(f'    <{kind} {attr} nsample="{n2}" interp="{interp}"/>')
+      meta.append((kind, "record", f"n={n2} {interp}"))
+  return "\n".join(lines), meta
+
+
+class _Ref:
+  """comparison of the Warp run with one MuJoCo reference run; twin-arbitrated (see above)"""
+
+  def __init__(self, mjm, mjd, meta):
+    self.mjm, self.mjd, self.meta = mjm, mjd, meta
+    self.scale = {}          # kind -> running max |reference value| (signal magnitude; tolerances are relative to it)
+    self.dead = set()        # kinds whose undelayed reading has differed from the reference: not judged any more
+    self.mism = {}           # (site, kind, variant) -> first mismatch record
+    self.visible = set()     # sensors whose delayed/held reference reading differed from the current undelayed one at some step
+    self.twin_of = {}
+    for sid, (kind, variant, par) in enumerate(meta):
+      if variant == "twin":
+        self.twin_of[kind] = sid
+
+  def tol(self, kind):
+    return 2e-4 + 1e-3 * self.scale.get(kind, 0.0)
+
+  def sensordata(self, sd, step):
+    mjm, ref = self.mjm, self.mjd.sensordata
+    nworld = sd.shape[0]
+    for twins in (True, False):
+      for sid, (kind, variant, par) in enumerate(self.meta):
+        if (variant == "twin") != twins or kind in self.dead:
+          continue
+        a, dim = int(mjm.sensor_adr[sid]), int(mjm.sensor_dim[sid])
+        r = ref[a:a + dim]
+        if twins:
+          self.scale[kind] = max(self.scale.get(kind, 0.0), float(np.max(np.abs(r))))
+        else:
+          ta = int(mjm.sensor_adr[self.twin_of[kind]])
+          if np.any(np.abs(ref[ta:ta + dim] - r) > self.tol(kind)):
+            self.visible.add(sid)
+        for w in range(nworld):
+          if not np.all(np.abs(sd[w, a:a + dim] - r) <= self.tol(kind)):
+            if twins:
+              self.dead.add(kind)
+            else:
+              self.mism.setdefault(("history.apply_sensor_delay", kind, variant), dict(step=step, world=w, sensor=sid, params=par, warp=sd[w, a:a + dim].tolist(), mujoco=r.tolist()))
+            break
+
+  def read(self, site, kind, variant, par, got, want, step, **kw):
+    if kind in self.dead:
+      return
+    if not np.all(np.abs(np.asarray(got) - np.asarray(want)) <= self.tol(kind)):
+      self.mism.setdefault((site, kind, variant), dict(step=step, params=par, warp=np.asarray(got).tolist(), mujoco=np.asarray(want).tolist(), **kw))
+
+
+def _mj_read_sensor(mujoco, mjm, mjd, sid, t, interp):
+  dim = int(mjm.sensor_dim[sid])
+  buf = np.zeros((dim, 1))
+  r = mujoco.mj_readSensor(mjm, mjd, sid, t, buf, interp)
+  return (buf if r is None else np.asarray(r, dtype=float)).ravel()[:dim].copy()
+
+
+def _lockstep(acc, rng, xml, meta, start, nworld, nsteps, label):
+  """one zoo case: Warp and MuJoCo C step by step with the same controls; compares sensordata, read_sensor and read_ctrl"""
+  import mujoco
+  import warp as wp
+  import mujoco_warp as mjw
+  mjm = mujoco.MjModel.from_xml_string(xml)
+  mjd = mujoco.MjData(mjm)
+  m = mjw.put_model(mjm)
+  dt = float(mjm.opt.timestep)
+  nu = mjm.nu
+
+  def controls():
+    return rng.integers(-4, 5, size=nu).astype(np.float64)
+
+  def both(u, refs):
+    for r in refs:
+      r.ctrl[:] = u
+      mujoco.mj_step(mjm, r)
+
+  mjd_nr = None
+  if start == "put_data":
+    d = mjw.put_data(mjm, mjd, nworld=nworld)
+  elif start == "put_data_mid":      # MuJoCo data taken in the middle of an episode: the buffers hold real samples
+    for _ in range(3):
+      both(controls(), [mjd])
+    d = mjw.put_data(mjm, mjd, nworld=nworld)
+  else:
+    d = mjw.make_data(mjm, nworld=nworld)
+  if start == "reset_data":
+    for _ in range(3):
+      u = controls()
+      both(u, [mjd])
+      d.ctrl.assign(np.tile(u, (nworld, 1)).astype(np.float32))
+      mjw.step(m, d)
+    stale = mjd.history.copy()
+    mjw.reset_data(m, d)
+    mujoco.mj_resetData(mjm, mjd)
+    # exact signature of the recorded finding C30-reset-history: MuJoCo itself, reset, but with the history buffers NOT re-initialised
+    mjd_nr = mujoco.MjData(mjm)
+    mjd_nr.history[:] = stale
+  refs = [_Ref(mjm, mjd, meta)] + ([_Ref(mjm, mjd_nr, meta)] if mjd_nr is not None else [])
+  hist_sids = [sid for sid in range(mjm.nsensor) if mjm.sensor_history[sid, 0] > 0]
+  first_twin = next(sid for sid, mt in enumerate(meta) if mt[1] == "twin")
+  hist_act = [i for i in range(nu) if mjm.actuator_history[i, 0] > 0]
+  plain_act = [i for i in range(nu) if mjm.actuator_history[i, 0] == 0][:1]
+  tq = wp.zeros(nworld, dtype=float)
+  for s in range(nsteps):
+    u = controls()
+    both(u, [r.mjd for r in refs])
+    d.ctrl.assign(np.tile(u, (nworld, 1)).astype(np.float32))
+    mjw.step(m, d)
+    acc.evals += 1
+    sd = d.sensordata.numpy()
+    if not np.all(np.isfinite(sd)):
+      acc.hit("zoo:nonfinite-skip")
+      return
+    for r in refs:
+      r.sensordata(sd, s)
+    # read_sensor / read_ctrl: every sensor with a buffer (plus one without), per-world query times, interpolation override in rotation
+    tw = d.time.numpy().astype(np.float64)
+    qoff = np.array([ZOO_QOFF[(s + w) % len(ZOO_QOFF)] for w in range(nworld)])
+    tq.assign((tw - qoff * dt).astype(np.float32))
+    for j, sid in enumerate(hist_sids + [first_twin]):
+      if (j + s) % 2:
+        continue
+      kind, variant, par = meta[sid]
+      interp = [-1, 0, -1, 1, -1, 2][(j // 2 + s) % 6]
+      dim = int(mjm.sensor_dim[sid])
+      res = wp.zeros((nworld, dim), dtype=float)
+      mjw.read_sensor(m, d, sid, tq, interp, res)
+      got = res.numpy()
+      acc.evals += 1
+      for r in refs:
+        # MuJoCo's own clock differs from Warp's float32 clock by rounding only; the query is made at the same offset from it
+        want = np.stack([_mj_read_sensor(mujoco, mjm, r.mjd, sid, r.mjd.time - qoff[w] * dt, interp) for w in range(nworld)])
+        r.read("history.read_sensor", kind, variant, par, got, want, s, sensor=sid, interp=interp, qoff=qoff.tolist())
+    for i in hist_act + plain_act:
+      interp = [-1, 0, 1, 2][(i + s) % 4]
+      res = wp.zeros(nworld, dtype=float)
+      mjw.read_ctrl(m, d, i, tq, interp, res)
+      got = res.numpy()
+      for r in refs:
+        want = np.array([mujoco.mj_readCtrl(mjm, r.mjd, i, r.mjd.time - qoff[w] * dt, interp) for w in range(nworld)])
+        r.scale["ctrl"] = 4.0
+        r.read("history.read_ctrl", "ctrl", "delay" if i in hist_act else "plain", f"actuator {i}", got, want, s, actuator=i, interp=interp, qoff=qoff.tolist())
+  # verdict
+  true, nr = refs[0], (refs[1] if len(refs) > 1 else None)
+  report = true
+  if nr is not None and true.mism:
+    # Warp differs from MuJoCo after reset_data: the recorded finding, reported when observed ...
+    key, rec = sorted(true.mism.items())[0]
+    acc.find(f"after reset_data delayed readings differ from MuJoCo (first: {key[1]} [{key[2]}] via {key[0]} at step {rec['step']}); Warp behaves like MuJoCo with the stale buffers" if not nr.mism else
+             f"after reset_data delayed readings differ from MuJoCo (first: {key[1]} [{key[2]}] via {key[0]} at step {rec['step']})",
+             "io.reset_data", "history-not-reset", xml=xml, start=start, nworld=nworld, case=label, **rec)
+    acc.hit("zoo:reset-history-observed")
+    # ... and anything that is NOT explained by "MuJoCo with the history buffers left as they were" is judged against that reference
+    report = nr if len(nr.mism) <= len(true.mism) else true
+  for k in sorted(report.dead):
+    acc.hit(f"zoo:value-differs-not-judged:{k}")
+  # vacuity: a delayed / interval reading that never differs from the current one would not show a missing delay
+  for sid, (kind, variant, par) in enumerate(meta):
+    if variant not in ("twin", "record"):
+      acc.hit(f"zoo:{variant}-visible" if sid in report.visible else f"zoo:{variant}-NOT-visible:{kind}")
+  n = 0
+  for (site, kind, variant), rec in sorted(report.mism.items(), key=lambda kv: (kv[1]["step"], kv[0])):
+    if n >= 4:
+      break
+    n += 1
+    acc.find(f"{kind} sensor [{variant}: {rec['params']}] differs from MuJoCo at step {rec['step']} via {site} (start={start}, nworld={nworld}) while the undelayed {kind} reading agrees",
+             site, f"{variant}:{kind}", xml=xml, start=start, nworld=nworld, case=label, **rec)
+
+
+def _zoo(ctx, ncases, acc):
+  rng = np.random.default_rng(ctx.seed * 1000 + 31)
+  # regression case first (repair 11fa011 of /repo): delayed tendonlimitfrc / jointlimitfrc went through the delay buffer twice per step
+  dt = 0.002
+  reg = [("tendonlimitfrc", 'tendon="ten"'), ("jointlimitfrc", 'joint="h"'), ("touch", 'site="pad"'), ("tendonactuatorfrc", 'tendon="ten"')]
+  lines, meta = [], []
+  for kind, attr in reg:
+    lines += [f'    <{kind} {attr}/>', f'    <{kind} {attr} delay="{2 * dt}" nsample="3"/>', f'    <{kind} {attr} delay="{2.5 * dt}" nsample="4" interp="linear"/>']
+    meta += [(kind, "twin", ""), (kind, "delay", "n=3 delay=2dt zoh"), (kind, "delay", "n=4 delay=2.5dt linear")]
+  xml = ZOO.format(dt=dt, sensors="\n".join(lines), ad=dt, an=2, ai="zoh")
+  _lockstep(acc, np.random.default_rng(30), xml, meta, "put_data", 1, 12, "regression-11fa011")
+  acc.hit("zoo:regression-limitfrc-delay")
+  for c in range(ncases):
+    k = c + ctx.seed
+    start = ZOO_STARTS[k % 4]
+    nworld = 1 + ((k % 2) ^ ((k // 4) % 2))
+    dt = [0.01, 0.002, 0.0078125][k % 3]
+    sens, meta = _zoo_sensors(rng, dt, k)
+    an = int(rng.integers(1, 5))
+    am = int(rng.integers(1, an + 1))
+    ai = ["zoh", "linear", "cubic"][k % 3]
+    xml = ZOO.format(dt=dt, sensors=sens, ad=f"{am * dt:.9g}", an=an, ai=ai)
+    nsteps = int(rng.integers(9, 15))
+    _lockstep(acc, rng, xml, meta, start, nworld, nsteps, f"zoo-{k}")
+    acc.hit(f"zoo:{start}")
+    acc.hit(f"zoo:nworld={nworld}")
+    acc.distinct.add(("zoo", k, dt, start, nworld, ai))
+    for kind, variant, par in meta:
+      if variant != "twin":
+        acc.hit(f"zoo:{variant}")
+
+
+
 RULE = ("hinge+slide model with a delayed motor (nsample 1..5, delay 1..n steps or a half step, zoh/linear/cubic) and a delayed joint sensor; dt in {0.01,0.002,2^-7}; data from make_data / put_data / "
-        "after reset_data; integer controls; 2..3n+3 steps (wrap-around) in lock step with mujoco.mj_step comparing qvel and sensordata; distinct = distinct parameter tuples")
+        "after reset_data; integer controls; 2..3n+3 steps (wrap-around) in lock step with mujoco.mj_step comparing qvel and sensordata; distinct = distinct parameter tuples. "
+        "Sensor zoo: fixed regression case (delayed tendonlimitfrc/jointlimitfrc/touch/tendonactuatorfrc, 11fa011) first, then cases k = c + seed rotating start = (put_data, make_data, reset_data, put_data_mid)[k%4], "
+        "nworld = 1 + (k%2 xor (k//4)%2), dt = (0.01, 0.002, 2^-7)[k%3], third variant per kind = (interval, delay+interval, record-only)[(kind index + k)%3]; 42 kinds x (twin, delayed, third variant); "
+        "9..14 steps with integer controls on 4 actuators (one delayed); sensordata of every sensor every step, read_sensor of every buffered sensor every other step, read_ctrl every step, all vs MuJoCo C")
+
+
+def _merge(a, b):
+  a.evals += b.evals
+  a.distinct |= b.distinct
+  a.findings = (a.findings + b.findings)[:40]
+  a.samples += b.samples
+  for k, v in b.hist.items():
+    a.hist[k] = a.hist.get(k, 0) + v
+  return a
 
 
 def correspondence(ctx):
   from harness.corr import func_corr
   fc = func_corr.run(["history._history_physical_index"], ncases=64, seed=ctx.seed, int_ranges={"history._history_physical_index": (1, 7)})
+  zacc = Acc()
+  _zoo(ctx, 32 if ctx.thorough else 8, zacc)      # regression case for 11fa011 runs first
   acc, kc = _run(ctx, 36 if ctx.thorough else 9, True)
-  return result(acc, RULE, kc=kc, fc=fc)
+  return result(_merge(zacc, acc), RULE, kc=kc, fc=fc)
 
 
 def search(ctx, breaks):
+  zacc = Acc()
+  _zoo(ctx, 40, zacc)
   acc, _ = _run(ctx, 90, False)
+  acc = _merge(zacc, acc)
   return search_result(acc, "lock-step mujoco.mj_step on delayed actuators/sensors from make_data/put_data/reset_data")
